@@ -221,8 +221,8 @@ def run_extra_configs(prop, tier, configs, contracts_dir, evidence_path, rc):
     extra = []
     for name, c in configs.items():
         own = [o for o in c.get('own', []) if os.path.exists(os.path.join(contracts_dir, o + '.vc'))]
-        if not own:
-            continue
+        if not own or not c.get('enabled', True):
+            continue  # a configuration under construction: its sidecars are kept out of the default run and not run yet
         has = False
         for o in own:
             t = open(os.path.join(contracts_dir, o + '.vc')).read()
